@@ -49,4 +49,10 @@ CORPUS = [
     Mut('c09-benign-origin-out-of-place', 'torchtree/evolution/bdsk.py', '', "                origin = origin + node_heights[..., -1:]", "                origin = node_heights[..., -1:] + origin", benign=True, mode='text'),
     Mut('c09-rho-padded-after', 'torchtree/evolution/birth_death.py', '', "                    torch.zeros(\n                        self.rho.shape[:-1] + (lambda_.shape[-1] - self.rho.shape[-1],)\n                    ),\n                    self.rho.tensor,\n",
         "                    self.rho.tensor,\n                    torch.zeros(\n                        self.rho.shape[:-1] + (lambda_.shape[-1] - self.rho.shape[-1],)\n                    ),\n", expect=[('C09.R', 'birth_death._call::rho-padded-with-leading-zeros')], mode='text'),
+    Mut('c09-births-on-a-boundary-counted-twice', 'torchtree/evolution/bdsk.py', '', "                torch.sum(x.unsqueeze(-2) < times[..., 1:].unsqueeze(-1), -1)\n", "                torch.sum(x.unsqueeze(-2) <= times[..., 1:].unsqueeze(-1), -1)\n",
+        expect=[('C09.B', 'births-on-a-boundary')], mode='text'),
+    Mut('c09-births-epoch-index-other-side', 'torchtree/evolution/bdsk.py', '', "        indices_x = torch.searchsorted(times, x, right=True) - 1\n", "        indices_x = torch.clamp(torch.searchsorted(times, x, right=False) - 1, min=0)\n",
+        expect=[('C09.B', 'births-on-a-boundary')], mode='text'),
+    Mut('c09-benign-boundary-count-written-the-other-way-round', 'torchtree/evolution/bdsk.py', '', "                torch.sum(x.unsqueeze(-2) < times[..., 1:].unsqueeze(-1), -1)\n", "                torch.sum(times[..., 1:].unsqueeze(-1) > x.unsqueeze(-2), -1)\n",
+        benign=True, mode='text'),
 ]
